@@ -239,7 +239,58 @@ def check_interpolators(run, cx, cfg):
                 want = L + (R - L) * X
                 if not (got == want):
                     bad = 'blend is %r, expected l + (r - l)*x = %r' % (got, want)
+                else:
+                    # range discipline: the amplitude abstraction treats conversions as the identity on reals, which is only
+                    # true inside the format's range.  Every conversion from a float into a sample format that may be an
+                    # integer format must therefore receive a value that stays in [-1, 1] for l, r in [-1, 1], x in [0, 1].
+                    rbad = conversion_ranges(cp, cp['ret'], N, {l: (-1, 1), rr: (-1, 1), ('param', 2): (0, 1)})
+                    run.check(rbad is None, 'linear.blend-range', fn, cfg, rbad or '', where=where(body),
+                              sample='every float->sample conversion inside the blend receives a convex combination of l and r')
     run.check(bad is None, 'linear.interpolate', fn, cfg, bad or '', where=where(body), sample='per channel: l + (r - l)*x as a polynomial identity over the reals')
+
+
+CONV_APPS = ('dasp_sample::Sample::to_sample', 'dasp_sample::conv::ToSample::to_sample_', 'dasp_sample::conv::FromSample::from_sample_', 'dasp_sample::Sample::from_sample')
+
+
+def conversion_ranges(path, term, N, box):
+    """for every float -> (possibly integer) sample conversion inside `term`: the converted value, as a multilinear
+    polynomial of the boxed atoms, must stay within [-1, 1] on the box (checked at the vertices, exact for multilinear forms)"""
+    import itertools
+    from fractions import Fraction
+    for s in subterms(term):
+        if s[0] != 'app' or s[1] not in CONV_APPS or len(s) < 4:
+            continue
+        targs = s[3]
+        dst = targs[-1] if s[1] != 'dasp_sample::conv::FromSample::from_sample_' else targs[0]
+        src = targs[0] if s[1] != 'dasp_sample::conv::FromSample::from_sample_' else targs[-1]
+        if dst in ('f32', 'f64'):
+            continue                      # conversions into a float format do not saturate on [-1, 1]-scaled data
+        arg = s[2][0]
+        if arg[0] == 'ref':
+            arg = deref(path, arg)
+        rf = N(arg)
+        atoms = sorted(rf.atoms(), key=repr)
+        if not (rf.d == P.Poly.const(1)) or any(a not in box for a in atoms):
+            if src in ('f32', 'f64'):
+                return 'cannot bound the value %r converted from %s to %s' % (rf, src, dst)
+            continue
+        if any(e > 1 for mon in rf.n.t for a, e in mon):
+            return 'the value %r converted to a sample format is not multilinear; its range is not established' % rf
+        lo = hi = None
+        for vertex in itertools.product(*[box[a] for a in atoms]):
+            env = dict(zip(atoms, vertex))
+            v = Fraction(0)
+            for mon, c in rf.n.t.items():
+                k = c
+                for a, e in mon:
+                    k *= env[a]
+                v += k
+            lo = v if lo is None or v < lo else lo
+            hi = v if hi is None or v > hi else hi
+        if lo is not None and (lo < -1 or hi > 1):
+            return ('a float value with range [%s, %s] (%r for l, r in [-1, 1], x in [0, 1]) is converted to the sample format %s: integer formats saturate at +-1, '
+                    'so the result is not the straight-line blend' % (lo, hi, rf, dst))
+    return None
 
 
 def run(run, tier, loadcfg):
